@@ -4,6 +4,9 @@ Verifies each sub-agent change in its scratch worktree (tests pass with it, demo
 runs every registered check against /repo with the change applied (undoing it straight afterwards), and files the change
 under /verif/seeded/<id>/ with patch.diff, demo.py, notes.md and meta.json."""
 import json, os, shutil, subprocess, sys
+sys.path.insert(0, "/verif")
+sys.setrecursionlimit(20000)
+from framelint import core, selftest
 
 def sh(cmd, cwd=None, timeout=1200):
     p = subprocess.run(cmd, shell=True, cwd=cwd, capture_output=True, text=True, timeout=timeout)
@@ -33,18 +36,19 @@ for P in props:
         rc_mut, o_mut = sh(f"PYTHONPATH={wt} /venv/bin/python {out}/demo_{I}.py", wt)
         sh("git checkout -q -- . ; git clean -fdq", wt)
         ok = rc_clean == 0 and rc_apply == 0 and "46 passed" in o_t and rc_mut != 0
-        # our checks against /repo with the change applied
+        # our checks on the current /repo sources with the change applied in memory (framelint.selftest.patched_sources:
+        # /repo itself is not touched, so other runs are not disturbed); every property is run, to record cross-detection
         results = {}
-        rc_a, o_a = sh(f"git apply {diff}", "/repo")
-        try:
-            if rc_a == 0:
-                for Q in ALL:
-                    rc, o = sh(f"./check {Q} --no-evidence", "/verif")
-                    rules = sorted({l.split("rule=")[1].split(" ")[0] for l in o.splitlines() if l.startswith("FINDING")})
-                    if rc != 0:
-                        results[Q] = {"exit": rc, "rules": rules}
-        finally:
-            sh("git checkout -q -- .", "/repo")
+        ov = selftest.patched_sources(diff, "/repo")
+        if ov is not None:
+            for Q in ALL:
+                base, _ = core.run_property(Q, "quick", "/repo")
+                ctx, err = core.run_property(Q, "quick", "/repo", overrides=ov)
+                newk = {f.key for f in ctx.findings} - {f.key for f in base.findings}
+                if newk:
+                    results[Q] = {"exit": 1, "rules": sorted({k.split("|")[1] for k in newk})}
+                elif err:
+                    results[Q] = {"exit": 2, "rules": [], "error": str(err)[:200]}
         d = f"/verif/seeded/{sid}"
         os.makedirs(d, exist_ok=True)
         shutil.copy(diff, f"{d}/patch.diff")
@@ -59,7 +63,8 @@ for P in props:
             "verification": {"demo_on_clean_tree_exit": rc_clean, "patch_applies": rc_apply == 0, "test_suite_with_patch": o_t.strip().splitlines()[-1] if o_t.strip() else "",
                              "demo_with_patch_exit": rc_mut, "demo_output_tail": o_mut.strip().splitlines()[-2:], "confirmed": ok,
                              "commands": [f"git apply patch.diff (scratch worktree)", "PYTHONPATH=<root> /venv/bin/python -m pytest -q -p no:cacheprovider tests",
-                                          "PYTHONPATH=<root> /venv/bin/python demo.py"]},
+                                          "PYTHONPATH=<root> /venv/bin/python demo.py",
+                                          "framelint: all 20 properties on /repo's sources with patch.diff applied in memory"]},
             "detected_by": results,
             "detected_by_own_property_check": P in results and results[P]["exit"] == 1,
             "missed_before_strengthening": sid in missed,
